@@ -7,6 +7,7 @@ mod lattice;
 mod limits;
 mod oracle;
 mod robots;
+mod singular;
 mod solver;
 mod stack;
 mod util;
@@ -24,6 +25,8 @@ fn main() {
         ("replay", "chain") => chain::replay(&args[3], &args[4]),
         ("record", "fk") => chain::record(&args[3]),
         ("replay", "stack") => stack::replay(&args[3], &args[4]),
+        ("replay", "singular") => singular::replay(&args[3], &args[4], &args[5]),
+        ("record", "cont") => singular::record_cont(&args[3]),
         ("record", "ik") => solver::record(&args[3], &args[4]),
         ("record", "follow") => solver::record_follow(&args[3]),
         _ => {
